@@ -67,8 +67,8 @@ func (w *world) violate(oracle, class, site, detail string) {
 		Detail: fmt.Sprintf("step %d: %s", step, detail), RunSeed: w.sc.RunSeed})
 }
 
-const opTicks = 4_000_000
-const opAlloc = 256 << 20
+const opTicks = 200_000
+const opAlloc = 8 << 20
 
 // guard runs f with a tick/alloc budget and converts a panic into an outcome string.
 func guard(f func() string) (out string) {
@@ -118,6 +118,35 @@ func normalise(m any) []uint32 {
 	return ids
 }
 
+// refCtx receives the ids drawn while the sequential reference runs (no simulation active).
+var refCtx *taskCtx
+
+func currentCtx() *taskCtx {
+	if s := simrt.Cur(); s != nil {
+		if t := s.Running(); t != nil {
+			if c, ok := t.Tag.(*taskCtx); ok {
+				return c
+			}
+		}
+		return nil
+	}
+	return refCtx
+}
+
+func init() {
+	// NewOfp13Header is a public, replaceable function variable: wrap it once, before any
+	// simulation exists, so that every id the generator issues is attributed to the task
+	// that drew it. The wrapped generator (the code under test) runs unchanged.
+	orig := openflow13.NewOfp13Header
+	openflow13.NewOfp13Header = func() common.Header {
+		h := orig()
+		if c := currentCtx(); c != nil {
+			c.ids = append(c.ids, h.Xid)
+		}
+		return h
+	}
+}
+
 func distinct(ids []uint32) []uint32 {
 	var out []uint32
 	for _, id := range ids {
@@ -159,8 +188,7 @@ func (w *world) exec(c *taskCtx, op Op) string {
 		return guard(func() string {
 			var s []string
 			for i := 0; i < op.A; i++ {
-				h := openflow13.NewOfp13Header()
-				c.ids = append(c.ids, h.Xid)
+				h := openflow13.NewOfp13Header() // recorded by the wrapper installed in init
 				s = append(s, fmt.Sprintf("%d/%d/%d", h.Version, h.Type, h.Length))
 			}
 			return strings.Join(s, ",")
@@ -178,15 +206,26 @@ func (w *world) exec(c *taskCtx, op Op) string {
 			}
 			return strings.Join(s, ",")
 		})
+	case "hello":
+		return guard(func() string {
+			h, err := common.NewHello(4)
+			if err != nil || h == nil {
+				return "error:" + errText(err)
+			}
+			c.ids = append(c.ids, h.Xid)
+			normalise(h)
+			return encodeOutcome(h)
+		})
 	case "lib":
 		return guard(func() string {
 			m, err := hlib.LibMessage(op.N, simrt.NewRNG(op.S))
 			if err != nil || m == nil {
 				return "build-error:" + errText(err)
 			}
-			// a message may legitimately carry one id in several headers (a bundle-add and the
-			// message it wraps): ids are counted once per built message
-			c.ids = append(c.ids, distinct(normalise(m))...)
+			// ids are recorded where they are drawn (wrapper around NewOfp13Header); headers
+			// that constructors fill by other means (zero, copied, caller-chosen) are not ids
+			// issued by the generator and are only normalised for the comparison of outcomes
+			normalise(m)
 			out := encodeOutcome(m)
 			if hlib.LibTopLevel(op.N) {
 				if b, err := m.MarshalBinary(); err == nil && len(b) >= 8 {
@@ -336,7 +375,9 @@ func (w *world) reference() {
 	w.concurrent = false
 	for i := range w.sc.Tasks {
 		c := &taskCtx{id: i}
+		refCtx = c
 		w.runProgram(c, &w.sc.Tasks[i])
+		refCtx = nil
 		w.ref = append(w.ref, c)
 		simrt.Progress()
 	}
